@@ -1087,26 +1087,82 @@ type shadow struct {
 }
 
 // caseLine builds the model trace.  The instant at which the server closes a reader's writer during a
-// stop is not in the log; the builder first assumes "as late as possible" and, where a queue-full report
-// contradicts that (a closed ring whose consumer has gone fills after Q pushes although few are pending),
-// rebuilds with the close forced Q accepted pushes before that report.
+// stop is not in the log.  The builder first assumes "as late as the observations allow"; its shadow of the
+// model notices when that leads to a step the model would refuse (a queue-full report the queue state does
+// not explain, a TCP arrival that is not the head of the stream, frames left over at the end of a PAUSE) and
+// then tries the other possible instants of that stop window - every write between the stop request and its
+// completion - until the shadow accepts.  The model remains the judge of the result.
 func (hp *hop) caseLine() string {
 	forced := map[[2]int]int{}
-	for iter := 0; ; iter++ {
-		line, bad := hp.buildTrace(forced)
-		if bad == nil || iter > 12 {
+	line, rej := hp.buildTrace(forced)
+	for iter := 0; rej != nil && iter < 24; iter++ {
+		key := [2]int{rej[0], rej[1]}
+		cands := hp.stopWindowWrites(rej[0], rej[1])
+		fixed := false
+		for _, c := range cands {
+			forced[key] = c
+			l2, r2 := hp.buildTrace(forced)
+			if r2 == nil || r2[0] != rej[0] || r2[1] > rej[1] {
+				line, rej, fixed = l2, r2, true
+				break
+			}
+		}
+		if !fixed {
+			delete(forced, key)
 			return line
 		}
-		key := [2]int{bad[0], bad[1]}
-		if _, done := forced[key]; done {
-			return line
-		}
-		forced[key] = bad[2]
 	}
+	return line
 }
 
-// buildTrace returns the trace and, if a queue-full report could not be explained with the current
-// placement, (reader, play window number, write index before which the writer must already be closed).
+// stopWindowWrites lists the writes logged between the stop request that ends play window win of reader r
+// and the completion of that stop (newest first), plus one position after the last of them.
+func (hp *hop) stopWindowWrites(r, win int) []int {
+	n := 0
+	inStop := false
+	var out []int
+	last := -1
+	for _, e := range hp.events {
+		switch e.kind {
+		case evPlayB:
+			if e.r == r {
+				n++
+				inStop = false
+			}
+		case evStopB, evCloseB:
+			if e.r == r && n == win {
+				inStop = true
+			}
+		case evStopE, evCloseE:
+			if e.r == r && n == win {
+				inStop = false
+			}
+		case evWb:
+			last = e.w
+			if n == win && inStop {
+				out = append(out, e.w)
+			}
+		case evWe:
+			// a write that began before the stop request but was still running when it was logged
+			if n == win && inStop && (len(out) == 0 || out[len(out)-1] != e.w) && e.w == last {
+				out = append(out, e.w)
+			}
+		}
+	}
+	if len(out) > 0 {
+		out = append(out, out[len(out)-1]+1)
+	}
+	for i, j := 0, len(out)-1; i < j; i, j = i+1, j-1 {
+		out[i], out[j] = out[j], out[i]
+	}
+	if len(out) > 400 {
+		out = out[:400]
+	}
+	return out
+}
+
+// buildTrace returns the trace and, if its shadow of the model met a step the model would refuse while a
+// stop of that reader was in progress, (reader, play window number).
 func (hp *hop) buildTrace(forced map[[2]int]int) (string, []int) {
 	var bad []int
 	var l hx.L
@@ -1132,6 +1188,11 @@ func (hp *hop) buildTrace(forced map[[2]int]int) (string, []int) {
 	sh := make([]*shadow, nR)
 	for i := range sh {
 		sh[i] = &shadow{rx: map[[2]int][2]int{}}
+	}
+	reject := func(r int) {
+		if bad == nil {
+			bad = []int{r, sh[r].win}
+		}
 	}
 	will := make([]map[int]bool, nR)
 	for r := range will {
@@ -1210,6 +1271,13 @@ func (hp *hop) buildTrace(forced map[[2]int]int) (string, []int) {
 	}
 	nilW := func(r int) {
 		s := sh[r]
+		// what the consumer still ran before it was joined: the closures under its read position that
+		// are delivered later
+		for s.w == 2 && s.started && len(s.ring) > 0 && s.ring[s.rp] >= 0 && will[r][s.ring[s.rp]] {
+			if !drainOne(r) {
+				break
+			}
+		}
 		ctl(cNilW, r)
 		s.w, s.queue, s.ring = 0, nil, nil
 	}
@@ -1299,6 +1367,9 @@ func (hp *hop) buildTrace(forced map[[2]int]int) (string, []int) {
 			}
 			ctl(cDeact, e.r)
 			s.active = false
+			if hp.readers[e.r].tcp && len(s.wire) > 0 {
+				reject(e.r)
+			}
 			ctl(cStopDone, e.r)
 			s.ph = 0
 		case evCloseE:
@@ -1384,16 +1455,8 @@ func (hp *hop) buildTrace(forced map[[2]int]int) (string, []int) {
 					// the model must find the queue full by itself; if it will not, the writer was closed
 					// earlier than assumed: Q accepted pushes before this one
 					explained := (s.w == 1 && len(s.queue) >= hp.q) || (s.w == 2 && s.ring[s.wp] >= 0)
-					if !explained && s.ph == 3 && bad == nil {
-						k := len(s.accepted) - hp.q
-						if k < 0 {
-							k = 0
-						}
-						at := w.idx
-						if k < len(s.accepted) {
-							at = s.accepted[k]
-						}
-						bad = []int{r, s.win, at}
+					if !explained {
+						reject(r)
 					}
 					continue
 				}
@@ -1529,11 +1592,16 @@ func (hp *hop) buildTrace(forced map[[2]int]int) (string, []int) {
 					}
 					s.rx[key] = [2]int{d.w, 0}
 				}
+				if pos < 0 {
+					reject(r)
+				}
 				if pos >= 0 {
 					if hp.readers[r].tcp {
 						// the model only takes the head: if it is not the head the model rejects
 						if pos == 0 {
 							s.wire = s.wire[1:]
+						} else {
+							reject(r)
 						}
 					} else {
 						i = pos
